@@ -1,5 +1,169 @@
-//! case generators (filled in below)
+//! Case generators for C10 / C11. Every choice comes from the one Rng.
 use common::Rng;
-pub fn generate(_prop: &str, _thorough: bool, _rng: &mut Rng) -> Vec<String> {
-    vec!["n 3 4 2 2 xr,1,2,1,- xc,1,2,1,2,g xr,2,3,1,- xc,2,3,1,2,g yl,5,1,- yr,2,3,1,- b".to_string()]
+
+fn q_of(rf: u8) -> u64 { rf as u64 / 2 + 1 }
+
+/// a coordinator's history: transactions 1.. with contiguous assigned sequences from n0
+struct Hist { txs: Vec<(u64, u64, u64)> } // (tx, seq, k)
+fn hist(rng: &mut Rng, n0: u64, m: u64) -> Hist {
+    let mut s = n0;
+    let mut txs = Vec::new();
+    for t in 1..=m {
+        let k = if rng.chance(1, 3) { rng.range(2, 3) } else { 1 };
+        txs.push((t, s, k));
+        s += k;
+    }
+    Hist { txs }
+}
+
+/// family rep: X as a replica under an arbitrary delivery order, duplicates, conflicts, stale / foreign / malformed
+/// writes, confirmations (good and bad) and the node's own failed-coordinator appends
+fn gen_rep(rng: &mut Rng, rf: u8, big: bool) -> String {
+    let q = q_of(rf);
+    let n0 = rng.range(1, 3);
+    let m = if big { rng.range(5, 9) } else { rng.range(2, 5) };
+    let h = hist(rng, n0, m);
+    let mut ops: Vec<String> = Vec::new();
+    // delivery order: a window shuffle of the history
+    let mut order: Vec<usize> = (0..h.txs.len()).collect();
+    let win = rng.range(1, 4) as usize;
+    for i in 0..order.len() { let j = (i + rng.below(win as u64) as usize).min(order.len() - 1); order.swap(i, j); }
+    let mut next_tx = 100;
+    let mut sent: Vec<usize> = Vec::new();
+    for &i in &order {
+        let (t, s, k) = h.txs[i];
+        match rng.below(14) {
+            0 => ops.push(format!("xr,{t},{s},{k},z")),
+            1 => ops.push(format!("xr,{t},{s},{k},e")),
+            2 => ops.push(format!("xr,{t},{s},{k},f")),
+            3 => { next_tx += 1; ops.push(format!("xr,{next_tx},{s},{},-", rng.range(1, 2))); } // another transaction for the same sequence, first
+            4 => { next_tx += 1; ops.push(format!("xl,{next_tx},{},-", rng.range(1, 2))); }   // the node's own coordinator append
+            _ => {}
+        }
+        let fl = if rng.chance(1, 12) { "b" } else { "-" };
+        ops.push(format!("xr,{t},{s},{k},{fl}"));
+        sent.push(i);
+        if rng.chance(1, 4) { ops.push(format!("xr,{t},{s},{k},-")); }                         // duplicate
+        if rng.chance(1, 5) { next_tx += 1; ops.push(format!("xr,{next_tx},{s},{k},-")); }    // conflict / stale
+        if rng.chance(1, 10) { next_tx += 1; ops.push(format!("xr,{next_tx},{},1,-", s + rng.range(4, 9))); } // far ahead
+        // confirmations of something already sent
+        if rng.chance(1, 2) {
+            let (t2, s2, k2) = h.txs[*rng.pick(&sent)];
+            let cnt = rng.range(q, (rf as u64).max(q));
+            let v = match rng.below(9) { 0 => "i", 1 => "s", 2 => "n", _ => "g" };
+            let s3 = if rng.chance(1, 8) && k2 > 1 { s2 + 1 } else { s2 };                   // wrong sequence: multi-event only
+            ops.push(format!("xc,{t2},{s3},{k2},{cnt},{v}"));
+            if rng.chance(1, 5) { ops.push(format!("xc,{t2},{s2},{k2},{cnt},g")); }          // duplicate confirmation
+        }
+        if rng.chance(1, 3) { ops.push("b".into()); }
+    }
+    // confirm the rest (mostly), so the watermark moves
+    for &(t, s, k) in &h.txs { if rng.chance(2, 3) { ops.push(format!("xc,{t},{s},{k},{},g", rng.range(q, (rf as u64).max(q)))); } }
+    ops.push("b".into());
+    format!("n {rf} {} {n0} {n0} {}", rng.range(1, 4), ops.join(" "))
+}
+
+/// family sync: Y catches up from X (real PartitionSyncRequest / Response), possibly after diverging
+fn gen_sync(rng: &mut Rng, rf: u8) -> String {
+    let q = q_of(rf);
+    let n0x = rng.range(1, 4);
+    let n0y = rng.range(1, n0x);
+    let m = rng.range(2, 5);
+    let h = hist(rng, n0x, m);
+    let mut ops: Vec<String> = Vec::new();
+    // X holds the history; a prefix of it is confirmed
+    let conf = match rng.below(4) { 0 => h.txs.len(), 1 => 0, _ => rng.below(h.txs.len() as u64 + 1) as usize };
+    for (i, &(t, s, k)) in h.txs.iter().enumerate() {
+        ops.push(format!("xr,{t},{s},{k},-"));
+        if i < conf || rng.chance(1, 6) { ops.push(format!("xc,{t},{s},{k},{},g", rng.range(q, (rf as u64).max(q)))); }
+    }
+    // Y: maybe its own unconfirmed coordinator append (divergence), maybe a restart, maybe some writes in order
+    let mut ynext = n0y;
+    let mut div = false;
+    if rng.chance(1, 2) {
+        let k = rng.range(1, 2);
+        ops.push(format!("yl,{},{k},-", 200));
+        ynext += k; div = true;
+        if rng.chance(1, 2) { ops.push("yR".into()); }
+    } else if n0y == n0x && rng.chance(1, 2) {
+        let (t, s, k) = h.txs[0];
+        ops.push(format!("yr,{t},{s},{k},-")); ynext += k;
+    }
+    let _ = (ynext, div);
+    if rng.chance(1, 3) { ops.push("b".into()); }
+    // the write that opens the gap, then at most three more steps
+    let gi = rng.range(if h.txs.len() > 1 { 1 } else { 0 }, h.txs.len() as u64 - 1) as usize;
+    let (t, s, k) = h.txs[gi];
+    ops.push(format!("yr,{t},{s},{k},-"));
+    for _ in 0..rng.below(3) {
+        match rng.below(4) {
+            0 => { let (t2, s2, k2) = h.txs[rng.below(h.txs.len() as u64) as usize]; ops.push(format!("xc,{t2},{s2},{k2},{},g", rng.range(q, (rf as u64).max(q)))); }
+            1 => { let (t2, s2, k2) = h.txs[rng.below(h.txs.len() as u64) as usize]; ops.push(format!("yr,{t2},{s2},{k2},-")); }
+            2 => { for &(t2, s2, k2) in &h.txs { ops.push(format!("xc,{t2},{s2},{k2},{q},g")); } }
+            _ => ops.push("b".into()),
+        }
+    }
+    ops.push("b".into());
+    format!("n {rf} {} {n0x} {n0y} {}", rng.range(1, 3), ops.join(" "))
+}
+
+/// family exec: the coordinator path end to end (rf = 1 succeeds; rf > 1 has no quorum of replicas on one node)
+fn gen_exec(rng: &mut Rng, rf: u8) -> String {
+    let n0 = rng.range(1, 2);
+    let mut ops: Vec<String> = Vec::new();
+    let mut tx = 0;
+    let mut next = n0;
+    for _ in 0..rng.range(2, 7) {
+        tx += 1;
+        match rng.below(10) {
+            0 => { ops.push(format!("xe,{tx},{},b", rng.range(1, 3))); }
+            1 => { let k = rng.range(1, 2); ops.push(format!("xl,{tx},{k},-")); next += k; }
+            2 => { let k = rng.range(1, 2); ops.push(format!("xr,{tx},{next},{k},-")); next += k; }
+            _ => { let k = if rng.chance(1, 3) { rng.range(2, 4) } else { 1 }; ops.push(format!("xe,{tx},{k},-")); if rf == 1 { next += k; } }
+        }
+        if rng.chance(1, 3) { ops.push("b".into()); }
+    }
+    ops.push("b".into());
+    format!("n {rf} 4 {n0} {n0} {}", ops.join(" "))
+}
+
+/// family restart: X loses its memory (ResetCluster) in the middle of a history
+fn gen_restart(rng: &mut Rng, rf: u8) -> String {
+    let q = q_of(rf);
+    let n0 = rng.range(1, 2);
+    let m = rng.range(2, 5);
+    let h = hist(rng, n0, m);
+    let mut ops: Vec<String> = Vec::new();
+    let at = rng.below(h.txs.len() as u64) as usize;
+    for (i, &(t, s, k)) in h.txs.iter().enumerate() {
+        if i == at {
+            if rng.chance(1, 2) { ops.push(format!("xl,{},1,-", 300)); }
+            if i + 1 < h.txs.len() && rng.chance(1, 2) { let (t2, s2, k2) = h.txs[i + 1]; ops.push(format!("xr,{t2},{s2},{k2},-")); } // buffered, lost by the restart
+            ops.push("xR".into());
+        }
+        ops.push(format!("xr,{t},{s},{k},-"));
+        if rng.chance(1, 2) { ops.push(format!("xc,{t},{s},{k},{},g", rng.range(q, (rf as u64).max(q)))); }
+        if rf == 1 && rng.chance(1, 3) { ops.push(format!("xe,{},1,-", 400 + i)); break; }
+    }
+    ops.push("b".into());
+    format!("n {rf} 4 {n0} {n0} {}", ops.join(" "))
+}
+
+pub fn generate(prop: &str, thorough: bool, rng: &mut Rng) -> Vec<String> {
+    let c11 = prop == "C11";
+    let rfs: &[u8] = if thorough { &[1, 2, 3, 4, 5, 7] } else { &[1, 2, 3, 5] };
+    let mut v = Vec::new();
+    for &rf in rfs {
+        let (nrep, nsync, nexec, nres) = match (thorough, c11) {
+            (false, false) => (40, 14, if rf == 1 { 10 } else { 2 }, 3),
+            (false, true) => (24, 10, if rf == 1 { 40 } else { 4 }, 3),
+            (true, false) => (400, 90, if rf == 1 { 80 } else { 10 }, 12),
+            (true, true) => (200, 60, if rf == 1 { 300 } else { 20 }, 12),
+        };
+        for i in 0..nrep { v.push(gen_rep(rng, rf, i % 5 == 4)); }
+        for _ in 0..nsync { v.push(gen_sync(rng, rf)); }
+        for _ in 0..nexec { v.push(gen_exec(rng, rf)); }
+        for _ in 0..nres { v.push(gen_restart(rng, rf)); }
+    }
+    v
 }
